@@ -9,9 +9,14 @@ for d in sorted(glob.glob('/verif/seeded/*/')):
     if isinstance(det,str): det={'check':det,'detected':True}
     name=os.path.basename(d.rstrip('/'))
     files=sorted(set(l[6:].strip() for l in open(d+'patch.diff') if l.startswith('+++ b/')))
+    reg=m.get('regression') or {}
     how='MISSED'
     if det.get('detected',True):
         how='concrete input' if det.get('concrete_input',True) else 'broken tie/proof only (no-failing-input-found)'
+    if reg.get('result'):
+        how={'detected':'concrete input','MISSED':'MISSED'}.get(reg['result'], reg['result'])
+        if reg['result']=='detected' and reg.get('failing_input'): det=dict(det,failing_input=reg['failing_input'])
+        if reg['result']=='MISSED' and det.get('also_caught_by'): how='caught by a sibling check: '+det['also_caught_by'][:80]
     rows.append((name,', '.join(files),(m.get('summary') or '')[:160].replace('|','/').replace('\n',' '),det.get('check','').split(' (')[0],how,(det.get('failing_input') or '')[:90].replace('|','/'),'yes' if det.get('history') else ''))
 out=['# Seeded property-breaking changes and the checks that catch them','',
  'Each directory holds `patch.diff` (the change, written by a fresh sub-agent that saw only the property text), the demonstration test and `meta.json` (what it needs to manifest, confirmation, detection result).','',
